@@ -292,7 +292,17 @@ where
         // place all probability mass on a single symbol).
         assert!(support.end() > support.start());
 
-        let support_size_minus_one = support.end().wrapping_sub(support.start()).as_();
+        let support_size_minus_one_symbol = support.end().wrapping_sub(support.start());
+        if 8 * core::mem::size_of::<Symbol>() > Probability::BITS {
+            // Make sure the conversion to `Probability` below doesn't truncate (the shift is
+            // arithmetic for signed `Symbol`s, so this also catches differences that
+            // overflowed into the sign bit).
+            assert!(
+                support_size_minus_one_symbol >> Probability::BITS == Symbol::zero(),
+                "The support is too large to assign a nonzero probability to each element."
+            );
+        }
+        let support_size_minus_one = slack(*support.end(), *support.start());
         let max_probability = Probability::max_value() >> (Probability::BITS - PRECISION);
         let free_weight = max_probability
             .checked_sub(&support_size_minus_one)
